@@ -27,4 +27,31 @@ theorem sem_goFunc_noDefer {σ tok α : Type} (runTok : tok → M σ tok Unit) (
 @[simp] theorem sem_updRet {σ tok α : Type} (f : σ → σ × α) (g : GS σ tok) :
     (updRet f : M σ tok α) g = (.ok (f g.st).2, { g with st := (f g.st).1 }) := rfl
 
+/-- a `for … range` loop whose body always runs to its end (no `break`, no panic): the state transformer of the body
+    is folded over the list, in order -/
+theorem sem_forIn_yield {σ tok α : Type} (f : α → PUnit → M σ tok (ForInStep PUnit)) (F : α → GS σ tok → GS σ tok)
+    (h : ∀ c u s, f c u s = (.ok (.yield PUnit.unit), F c s)) (l : List α) (g : GS σ tok) :
+    forIn l PUnit.unit f g = (.ok PUnit.unit, l.foldl (fun s c => F c s) g) := by
+  induction l generalizing g with
+  | nil => rfl
+  | cons c l ih =>
+    rw [List.forIn_cons]
+    simp only [bind, h, List.foldl_cons]
+    exact ih _
+
+/-- the same, with the loop body in the shape `simp [bind]` leaves it in -/
+theorem sem_forIn_step {σ tok α : Type} (F : α → GS σ tok → GS σ tok) (l : List α) (g : GS σ tok) :
+    (forIn l PUnit.unit (fun c _ s => ((Out.ok (ForInStep.yield PUnit.unit), F c s) : Out (ForInStep PUnit) × GS σ tok)) : M σ tok PUnit) g
+      = (.ok PUnit.unit, l.foldl (fun s c => F c s) g) :=
+  sem_forIn_yield _ F (fun _ _ _ => rfl) l g
+
+/-- telling every collector of a list one verdict appends one entry per collector, in order, and changes nothing else -/
+theorem sem_slo_told_foldl (b : Bool) (l : List GoSlo.Collector) (g : GS GoSlo.SloW NoTok) :
+    l.foldl (fun (s : GS GoSlo.SloW NoTok) c =>
+        { st := { slo := s.st.slo, collectors := s.st.collectors, told := s.st.told ++ [(c.id, b)] }, defers := s.defers }) g
+      = { g with st := { g.st with told := g.st.told ++ l.map (fun c => (c.id, b)) } } := by
+  induction l generalizing g with
+  | nil => simp
+  | cons c l ih => simp [ih]
+
 end CM.GoTie
